@@ -190,9 +190,19 @@ def delegation_rule(chk, prog, roles):
         pairs.append((fn, callee_name(call)))
         a = call_args(call)
         # the wrapper does nothing else with the library: no shortcut through another entry point
-        extra = sorted({callee_name(x) for x in spec.calls} - {loader, callee_name(call)})
+        def instance_free(gname, depth=0):
+            """a static helper that is given no instance and reaches no library function that takes one (clean-up of the loaded text)"""
+            g = lib.get(gname)
+            if g is None or g.get("storageClass") != "static" or depth > 3:
+                return False
+            if any("assemblyline" in qtype(p_) for p_ in prog.params(g)):
+                return False
+            return all(instance_free(callee_name(x), depth + 1) for x in walk(prog.body(g))
+                       if x.get("kind") == "CallExpr" and callee_name(x) in lib)
+        extra = sorted(c_ for c_ in {callee_name(x) for x in spec.calls} - {loader, callee_name(call)} if not instance_free(c_))
         if wname != fn:
-            extra += sorted({callee_name(x) for x in walk(prog.body(w)) if x.get("kind") == "CallExpr" and callee_name(x) in lib} - {fn})
+            extra += sorted(c_ for c_ in {callee_name(x) for x in walk(prog.body(w)) if x.get("kind") == "CallExpr" and callee_name(x) in lib} - {fn}
+                            if not instance_free(c_))
         chk.require(not extra, "DELEG", key + "/only", loc_str(w),
                     "%s calls no library function besides the loader and its string counterpart (every call takes the same route)" % wname,
                     "also calls %s" % extra)
@@ -232,6 +242,12 @@ def delegation_rule(chk, prog, roles):
             rets = [m for m in walk(prog.body(g)) if m.get("kind") == "ReturnStmt" and kids(m)]
             last = rets[-1] if rets else None
             okr = resvar == "<direct>" or (last is not None and ref_name(strip(kids(last)[0], casts=True)) == resvar)
+            if not okr and last is not None and resvar:
+                # `return release(text, len, status)`: a helper that hands the status back unless its own work fails
+                le = strip(kids(last)[0], casts=True)
+                if le.get("kind") == "CallExpr" and callee_name(le) in lib:
+                    pt = ERR.passthrough_params(prog, callee_name(le))
+                    okr = any(i in pt and ref_name(strip(x, casts=True)) == resvar for i, x in enumerate(call_args(le)))
             others = [r for r in rets if r is not last and ce.try_eval(strip(kids(r)[0], casts=True)) in (0,)]
             return okr and not others, last
         okr, last = returns_result_of(f, call)
